@@ -47,7 +47,17 @@ def check_product(cfg, prefix_filter=None, which=("root", "leader", "images"), f
         except Exception as e:  # noqa: BLE001
             return [f"open_alos2 raised {type(e).__name__}: {str(e)[:200]}"], common.failure_site(e), prod
         exp = expect.expected_nodes(prod, which)
-        return expect.compare_tree(t, exp, prefix_filter), None, prod
+        diffs = expect.compare_tree(t, exp, prefix_filter)
+        if not diffs:
+            # opening is a function of the product: a second open in the same process gives the same tree, bit for bit
+            import treecmp
+            try:
+                d = treecmp.diff(treecmp.fingerprint_tree(t), treecmp.fingerprint_tree(_open(path)))
+            except Exception as e:  # noqa: BLE001
+                return [f"second open_alos2 of the same product raised {type(e).__name__}: {str(e)[:200]}"], common.failure_site(e), prod
+            if d:
+                diffs = ["second open of the same product differs from the first: " + d[:300]]
+        return diffs, None, prod
     finally:
         clean()
 
